@@ -67,3 +67,21 @@ From Vicut Require Import Model.Keys.
 Definition keys_obs (bs : list N) :=
   let '(ks, r) := keys_of bs in (ks, r_bytes r, r_esc r).
 Definition expand_obs (t : text) := expand_literal (fun _ => None) (S (length t)) t.
+
+From Vicut Require Import Model.Text.
+(** read_field after the key loop: (buf, cached offsets, cap, c0, c1, selection) *)
+Definition field_obs (c : text * list nat * nat * nat * nat * option (N * sel_range)) : option text :=
+  let '(buf, gidx, cap, c0, c1, sel) := c in
+  read_field_post buf gidx cap c0 c1
+    (match sel with
+     | Some (m, r) => Some ((if m =? 0 then SelChar else if m =? 1 then SelLine else SelBlock), r)
+     | None => None
+     end).
+
+From Vicut Require Import Model.Undo.
+(** ops: (kind, after, char_insert) with kind 0 = command, 1 = undo, 2 = redo *)
+Definition undo_obs (c : text * list (N * text * bool)) :=
+  let '(t, ops) := c in
+  let s := urun t (map (fun o => let '(k, a, ci) := o in
+                                 if k =? 0 then OCmd a ci else if k =? 1 then OUndo else ORedo) ops) in
+  (u_buf s, map (fun e => (e_old e, e_new e)) (u_undo s), map (fun e => (e_old e, e_new e)) (u_redo s)).
